@@ -85,13 +85,29 @@ Out(c) == CASE c.f = "sigmoid" -> Sigmoid(c) [] c.f = "softmax" -> Softmax(c) []
             [] c.f = "softmax_crossentropy" -> CrossEntropy(c) [] c.f = "elu" -> Elu(c) [] c.f = "glu" -> Glu(c)
             [] c.f = "std" -> Std(c) [] c.f = "norm" -> Norm(c) [] c.f = "batchnorm" -> BatchNorm(c)
 
+\* values that are irrational at the interpretation point but are finite sums  SUM_k c_k ln(a_k)  with rational c_k, a_k
+\* (logsoftmax, cross-entropy): given as the list of <<c_k, a_k>>, evaluated by the harness in extended precision
+LaneSumQ(c, p, ax) == DSumSeq(Gather(Es(c), Lane(p, c.sh, ax))).v
+LogForm(c) ==
+  CASE c.f = "logsoftmax" -> [p \in 1..Len(c.x) |-> << <<ROne, c.x[p].q>>, <<RNeg(ROne), LaneSumQ(c, p, c.axis)>> >>]
+    [] c.f = "softmax_crossentropy" ->
+         LET n == c.sh[1] k == c.sh[2]
+             RECURSIVE Terms(_)
+             Terms(i) == IF i > n THEN <<>>
+                         ELSE LET p == (i - 1) * k + c.y[i] + 1
+                              IN << <<F(-1, n), c.x[p].q>>, <<F(1, n), LaneSumQ(c, p, 1)>> >> \o Terms(i + 1)
+         IN <<Terms(1)>>
+    [] OTHER -> <<>>
+
 \* seed filler and the expected outcome
 G(i) == Q(((i * 3) % 5) - 2)
 Expected(c) ==
   LET o == Out(c)
       seed == [p \in 1..Len(o) |-> IF Len(o) = 1 THEN Q(1) ELSE G(p)]
       tot == DSumSeq([p \in 1..Len(o) |-> DScale(seed[p], D(RZero, o[p].t))]).t
-  IN [val |-> [p \in 1..Len(o) |-> IF IsOOR(o[p].v) THEN [irr |-> TRUE] ELSE [irr |-> FALSE, v |-> o[p].v]],
+      lf == LogForm(c)
+  IN [val |-> [p \in 1..Len(o) |-> IF IsOOR(o[p].v) THEN (IF lf # <<>> THEN [irr |-> TRUE, lf |-> lf[p]] ELSE [irr |-> TRUE])
+                                   ELSE [irr |-> FALSE, v |-> o[p].v]],
       seed |-> seed,
       grad |-> [i \in 1..Len(c.x) |-> TGet(tot, i)]]
 
